@@ -18,7 +18,7 @@ GRAMMARS = [
                  ("rdecl", ["X", "B"], "FAIL"), ("rii", ["I"], "J")]),
 ]
 TEXTS = {"I1": ["qa", "qa qa"], "I2": ["qa qb", "qa", "qb qa qb"], "I3": ["qa qb", "qa", "zz qa qb"],
-         "I5": ["qa qb", "qa - qb", "qa-qb qa", "qa qa"]}
+         "I5": ["qa qb", "qa - qb", "qa-qb qa", "qa qa", "- qa - qb", "- qa-qb", "qb - qa - qb"]}
 
 
 def engine_groups(ctx, depths=(0, 1, 2), seeds=12, scores=(0, 1, 2), deadlines=False, rels=((1, 1),)):
